@@ -352,6 +352,30 @@ pub fn spaces(tier: Tier) -> Vec<Space<'static>> {
         judge_text(&x, acc);
     }));
     // giant counts in crash-isolated workers (allocation failure would abort the process)
+    // escape sequences by surrogate class, through the text fallback: every sequence of <= 3 escapes
+    // over {first/last high surrogate, first/last low surrogate, BMP, U+FFFF, a short escape, a raw letter}
+    {
+        const ESC: [&str; 9] = ["\\ud800", "\\uDBFF", "\\udc00", "\\uDFFF", "\\u0041", "\\uffff", "\\n", "a", "\\ud83d"];
+        let n = ESC.len() as u64;
+        let total: u64 = (0..=3u32).map(|k| n.pow(k)).sum();
+        sp.push(Space::new("text fallback: every sequence of <= 3 escapes by surrogate class, as value and as key", total, move |idx, acc| {
+            let mut i = idx;
+            let mut len = 0u32;
+            let mut c = 1u64;
+            while i >= c {
+                i -= c;
+                c *= n;
+                len += 1;
+            }
+            let mut body = String::new();
+            for _ in 0..len {
+                body.push_str(ESC[(i % n) as usize]);
+                i /= n;
+            }
+            judge_text(format!("\"{}\"", body).as_bytes(), acc);
+            judge_text(format!("{{\"{}\":[\"{}\"]}}", body, body).as_bytes(), acc);
+        }));
+    }
     sp.push(Space::new("giant-counts-isolated", 1, move |_, acc| {
         let mut cases = vec![];
         for h in [0x9FFF_FFFFu32, 0x5FFF_FFFF, 0x8100_0000, 0x4100_0000, 0x80FF_FFFF, 0x40FF_FFFF, 0x9000_0000, 0x5000_0000] {
